@@ -94,7 +94,9 @@ def gen_large(tier, seed):
 
 
 def suites(tier, seed):
-    return [Suite("listener-mid-content", "machine", lambda: mg.listener_mid_content_cases(Rng(seed + 35)), monitor=monitor, nontrivial=lambda c, il: True, canon=mg.canon_nondet, candidate_ok=mg.candidate_ok, exhaustive=True,
+    return [Suite("bursts", "machine", lambda: mg.burst_cases(Rng(seed + 36)), monitor=monitor, nontrivial=lambda c, il: True, canon=mg.canon_nondet, shrink=False,
+                  rule="100 / 45 / 60 deliveries (0-3 body frames each) or one body in 300 frames, plus a reply for another channel at the very end, all readable in ONE wake-up (one read of everything, or reads of 997 / 4096 bytes back to back): every message delivered in that wake-up"),
+            Suite("listener-mid-content", "machine", lambda: mg.listener_mid_content_cases(Rng(seed + 35)), monitor=monitor, nontrivial=lambda c, il: True, canon=mg.canon_nondet, candidate_ok=mg.candidate_ok, exhaustive=True,
                   rule="a listener registered or replaced between two frames of one content on the same channel: reassembly is not disturbed"),
             Suite("idle-consumer-backlog", "machine", lambda: [mg.backlog_cases(Rng(seed + 31), "consumer", 70000)] if tier == "quick" else [mg.backlog_cases(Rng(seed + 31), "consumer", 70000, prefix="big"), mg.backlog_cases(Rng(seed + 32), "consumer", 12000)], monitor=monitor, nontrivial=lambda c, il: True, canon=mg.canon_nondet, shrink=False, compare=(tier != "quick"), canon_skip_model=("big",), timeout=600,
                   rule="70 000 deliveries pile up unread in one consumer's queue; a delivery and a call on another channel are then served at once, and the idle consumer finally reads all 70 000 in order followed by its terminal message (quick: judged by the monitor only; thorough: also diffed against the Lean model, whose list queues make that quadratic)"),
